@@ -16,7 +16,9 @@
                                    `enable` granted without a password prompt)
    resp_observers_ok               str() / raise_for_status() of ANY Response show nothing of its channel input; repr()
                                    is secret-free when host, channel_input and failed_when_contains are
-   resp_repr_refuted               repr() of EVERY response secret-free: false (interaction with a hidden input)  *)
+   resp_repr_refuted               repr() of EVERY response secret-free: false (interaction with a hidden input)
+   construct_premises_satisfiable  T1's premises hold of factory constructions (OpConstruct) whose configuration carries
+                                   all three credentials; a record of the MERGED arguments would not be obs_ok  *)
 From Coq Require Import String Lia.
 From Verif Require Import Bytes Secrets.
 
@@ -424,6 +426,7 @@ Proof.
   - inv E. split; auto.
   - unfold m_resp_raise in E. destruct (r_failed r); inv E; split; auto.
   - inv E. split; auto. unfold tr_ok, m_assign. destruct cred; simpl in *; [reflexivity | rewrite Hw; reflexivity].
+  - inv E. split; auto. unfold tr_ok, m_construct. destruct community; simpl in *; [rewrite Hw; reflexivity | reflexivity].
 Qed.
 
 Lemma run_op_wok_any : forall o h t s h',
@@ -453,6 +456,7 @@ Proof.
   - inv E. reflexivity.
   - unfold m_resp_raise in E. destruct (r_failed r); inv E; reflexivity.
   - inv E. unfold m_assign. destruct cred; reflexivity.
+  - inv E. reflexivity.
 Qed.
 
 (* T1 *)
@@ -674,3 +678,17 @@ Example assign_premises_satisfiable :
   In (OInfo [Pub 7]) (fst (run_ops true ops2 h2)) /\
   forallb obs_ok (fst (run_ops true ops1 h1) ++ fst (run_ops true ops2 h2)) = true.
 Proof. vm_compute. repeat split; tauto. Qed.
+
+(* non-trivial instance with the factory: a driver for a community platform is constructed with all three credentials
+   in its configuration ([OpConstruct true]: the record shows the platform's own arguments, nothing of the configuration),
+   a core-platform one likewise ([OpConstruct false]: the class only), then repr() of the driver; T1's premises hold and
+   nothing secret shows — while a record that printed the MERGED arguments would not be [obs_ok] (the configuration is
+   NOT required to be public by [op_wf]) *)
+Example construct_premises_satisfiable :
+  let c := mkConf [Pub 20] [Pub 10] [] [Pub 21] [Sec 1] [Sec 3] [Sec 2] in
+  let ops := [OpConstruct true [Pub 30; Pub 31] c; OpConstruct false [] c; OpRepr c] in
+  forallb op_wf ops = true /\ forallb op_wf_first ops = true /\
+  run_ops true ops [] = ([OInfo [Pub 30; Pub 31]; OInfo []; ORepr [Pub 20; Pub 10; Pub 21]], SOk) /\
+  forallb obs_ok (fst (run_ops true ops [])) = true /\
+  obs_ok (OInfo ([Pub 30; Pub 31] ++ c_pw c ++ c_ph c ++ c_sec2 c)) = false.
+Proof. vm_compute. repeat split; reflexivity. Qed.
